@@ -241,7 +241,7 @@ def names_api(run, ctx):
         n += 1
         good = True
         kinds_ = set()
-        for p in S.paths_of(fn["body"]):
+        for p in S.paths_of(fn["body"], combinators=True):
             v = S.ret_value(p)
             if v is None:
                 continue
@@ -401,7 +401,10 @@ def backref_spellings(run, ctx):
         calls = [H.canon(nd) for nd in H.walk(fn["body"]) if nd.get("k") == "MethodCall" and nd["name"] == "parse_named_backref"]
         sig = sorted(re.sub(r"\|(\w+)\| .*$", "", c) for c in calls)
         n += 1
-        want = sorted(["self.parse_named_backref(ix,\"'\",\"'\",true,", "self.parse_named_backref(ix,\"<\",\">\",true,"])
+        # both spellings start at the same position (whatever it is called), differ only in the delimiters
+        pos = {re.sub(r"^self\.parse_named_backref\((.*?),\".*$", r"\1", c) for c in sig}
+        P0 = sorted(pos)[0] if len(pos) == 1 else "ix"
+        want = sorted(["self.parse_named_backref(%s,\"'\",\"'\",true," % P0, "self.parse_named_backref(%s,\"<\",\">\",true," % P0])
         if sig != want:
             run.violation(fam, label, "conditional", H.where(fn), "(?(<name>).. and (?('name').. must be parsed identically, found %s" % sig)
     fn = _fn(run, ctx, "parse_group", fam, label)
